@@ -2,6 +2,7 @@ package checks
 
 import (
 	"fmt"
+	"github.com/cockroachdb/apd/v2"
 	"math/big"
 	"reflect"
 	"regexp"
@@ -48,6 +49,10 @@ func c04Directed() []interface{} {
 	for _, s := range []string{"9223372036854775807", "9223372036854775808", "-9223372036854775808", "-9223372036854775809", "18446744073709551615", "18446744073709551616", "-18446744073709551615", "-18446744073709551616", "0", "-1"} {
 		b, _ := new(big.Int).SetString(s, 10)
 		out = append(out, b, *b, []*big.Int{b}, map[string]*big.Int{"k": b})
+		// the same whole numbers held as decimals (exponent 0): both codecs write them as integers, so they come back
+		// through the integer -> decimal conversions of the builder
+		d := apd.NewWithBigInt(b, 0)
+		out = append(out, d, *d, []apd.Decimal{*d, *apd.New(-5, 0)}, struct{ D apd.Decimal }{*d}, map[string]*apd.Decimal{"k": d})
 	}
 	out = append(out, types.Edge{Source: "a", Description: int64(1), Destination: "b"}, types.Node{Value: "root", Children: []interface{}{int64(1), "x", types.Node{Value: true}}},
 		types.Media{MediaType: "text/plain", Data: []byte("hi")}, types.UID{1, 2, 3}, []types.Edge{{Source: int64(1), Description: "d", Destination: int64(2)}},
@@ -70,7 +75,7 @@ func init() {
 		ID:    "C04",
 		Level: "exploration",
 		Rule: "case = (Go type built with reflect to depth<=4 from the supported kinds incl. reflect.StructOf structs, value of that type with boundary magnitudes, nil/empty containers, long typed arrays; codec CBE or CTE); " +
-			"directed cases first (every numeric slice kind at lengths 0,1,15,16,17,1000, []bool at 0,1,7,8,9,64,1000, big.Int at +-2^63/2^64, Edge/Node/Media/UID). The value is marshaled with ce.MarshalTo*Document and unmarshaled " +
+			"directed cases first (every numeric slice kind at lengths 0,1,15,16,17,1000, []bool at 0,1,7,8,9,64,1000, big.Int and whole-number apd.Decimal (pointer, value, slice, field, map) at +-2^63/2^64, Edge/Node/Media/UID). The value is marshaled with ce.MarshalTo*Document and unmarshaled " +
 			"into a zero template of the same type; oracle = no error and ValueEq (NaN==NaN, times by Equal, big numbers by value, nil==empty, numbers inside interface{} by exact value). " +
 			"Non-trivial = type is composite (slice/array/map/struct/pointer); distinct = distinct (type, rendered value, codec).",
 		Assumptions: []string{"big.Float values are limited to float64-exact ones (others are rounded by the encoders: known finding of C01/C03)", "time.Time values use UTC or IANA zones present in the image's tzdata", "map keys are ints, uints, strings, bools, UIDs"},
